@@ -478,6 +478,18 @@ def close_does(chk, program, rule='CLOSE-DOES'):
     chk.floor('create_task_sites', nct, 4)
 
 def atomic_not_closed_from_entry(g):
+    """with the state CLOSED the function ends at once: following from the entry only the branch outcomes that state allows (tests on the state,
+    and on local flags computed from it), no await, no loop and no raise is reachable and the normal exit is"""
+    from .cfg import reach_with_flags
+    def atom(e):
+        r = eval_under_closed(e, 'CLOSED')
+        return NotImplemented if r is None else r
+    r = reach_with_flags(g, g.entry.id, (), atom)
+    if g.exit.id in r and not (r & g.await_nodes()) and not any(g.nodes[x].kind == 'iter' or (g.nodes[x].kind == 'test' and isinstance(g.nodes[x].ast, ast.While)) for x in r):
+        return True
+    return _atomic_not_closed_from_entry_first_test(g)
+
+def _atomic_not_closed_from_entry_first_test(g):
     """function starts with `if state == CLOSED: return` before any await: from entry, the first test reached on every
     path is a CLOSED test and its CLOSED edge leads to exit without an await"""
     cur = g.entry.id
